@@ -22,7 +22,7 @@ package keeper
 // Identity (C09): a symbol / min unit is taken at most once
 
 //@ func Keeper.AddToken(ctx, token, saveDenomMetaData)
-//@   property C09, C12
+//@   property C09, C10, C12
 //@   returns err
 //@   modifies tokens, byMinUnit, byOwner, byContract
 //@   ensures fresh:  err == nil ==> !old(has(tokens, token.Symbol)) && !old(has(byMinUnit, token.MinUnit))
@@ -31,6 +31,9 @@ package keeper
 // ... and nothing else stands in the way: symbols and min units are separate name spaces, so a token whose symbol and
 // min unit are both free is accepted (C12: an exported token list re-imports in any order)
 //@   ensures free_accepted: !old(has(tokens, token.Symbol)) && !old(has(byMinUnit, token.MinUnit)) && len(token.Contract) == 0 ==> err == nil
+// C10: a token that names its ERC20 contract is reachable through the contract index, whoever owns it (the EVM hook
+// and the swap entry points find the pair by contract address)
+//@   ensures @C10,C12 contract_indexed: err == nil && len(token.Contract) != 0 ==> has(byContract, token.Contract) && get(byContract, token.Contract) == token.Symbol
 //@ end
 
 //@ func Keeper.IssueToken(ctx, symbol, name, minUnit, scale, initialSupply, maxSupply, mintable, owner)
